@@ -10,7 +10,14 @@
 #include <geos/algorithm/LineIntersector.h>
 #include <geos/algorithm/Distance.h>
 #include <geos/simplify/DouglasPeuckerLineSimplifier.h>
+#include <geos/simplify/ComponentJumpChecker.h>
+#include <geos/simplify/TaggedLineString.h>
+#include <geos/index/VertexSequencePackedRtree.h>
+#include <geos/geom/LineSegment.h>
+#include <geos/geom/LineString.h>
+#include <geos/geom/Envelope.h>
 #include <cstdarg>
+#include <climits>
 #include <fstream>
 #include <iostream>
 #include <set>
@@ -363,6 +370,8 @@ static std::string runContract(GEOSContextHandle_t h, const std::vector<std::str
     return "ok";
 }
 
+static bool twoOptRing(Rng& r, int n, long R, ISeq& out);
+static int bigRingSize(Rng& r, Out& out, int hi);
 // ------------------------------------------------------------------ coverage generator
 // lattice W x H of square cells of side S; some cells split by a diagonal; cells merged into regions; every lattice edge is a
 // fixed jittered polyline shared by both neighbours; regions are unioned with GEOSCoverageUnion; the Lean driver re-checks
@@ -379,7 +388,8 @@ struct CovGen {
             long ux = dx / S, uy = dy / S;                                                                 // unit step per S (components -1,0,1)
             long nx = -uy, ny = ux;                                                                        // a normal direction (not normalised for diagonals: fine)
             int cnt = (int) r.below(4);
-            std::vector<long> pos; for (long q = S / 4; q <= 3 * S / 4; q += S / 8) if ((int) pos.size() < cnt && r.chance(45)) pos.push_back(q);
+            std::vector<long> pos;
+            for (long q = S / 4; q <= 3 * S / 4; q += S / 8) if ((int) pos.size() < cnt && r.chance(45)) pos.push_back(q);
             for (long q : pos) { long off = r.range(-(int) (S / 16), (int) (S / 16)); if (ux != 0 && uy != 0) off = off / 2;
                 mid.push_back({k.first.first + ux * q + nx * off, k.first.second + uy * q + ny * off}); }
             it = edgePts.insert({k, mid}).first;
@@ -455,11 +465,252 @@ static bool genCoverage(GEOSContextHandle_t h, Rng& r, Out& out, std::string& to
         }
         GEOSGeom_destroy_r(h, u);
     }
+    // a fixed share of coverages also contains isolated polygons (members that touch nothing: their boundary is one free ring), arbitrary
+    // simple polygons with ring sizes around the multiples of 16 as well as small ones
+    if (r.chance(30)) {
+        int k = r.range(1, 2);
+        for (int i = 0; i < k; i++) {
+            ISeq ring; long R = 40; int n = r.chance(60) ? bigRingSize(r, out, 48) : r.range(4, 14);
+            if (!(r.chance(70) ? twoOptRing(r, n, R, ring) : starRing(r, n, R, ring))) continue;
+            translate(ring, (long) cg.W * cg.S + 60 + (long) i * 100, r.range(-20, 60));
+            Poly q; q.rings.push_back(realise(t, ring)); Shape one; one.polys.push_back(q);
+            if (!contactFree(one)) continue;
+            shape.polys.push_back(q); parts.push_back(polyTok(q)); out.count("cov_isolated_polygon");
+        }
+    }
     if (parts.empty()) return false;
     out.count("cov_polys", (long) parts.size()); out.count(nIsl ? "cov_with_holes" : "cov_no_holes");
     out.count("cov_cells_" + std::to_string(cg.W) + "x" + std::to_string(cg.H));
     tok = wrapMulti("GC", parts);
     return true;
+}
+
+
+// ------------------------------------------------------------------ S8 additions: generic families the quick run must always contain
+// (1) arbitrary simple polygons (random points polygonised by 2-opt untangling: pockets, fingers, hooks -- not star-shaped, not monotone),
+//     ring sizes drawn around the multiples of the vertex-index node capacity (16k-1 .. 16k+2) as well as uniformly;
+// (2) "archipelago" inputs: a large polygon with several tiny rings scattered over its bounding box -- those inside become holes (in
+//     random order), those outside become further elements (small polygons / lines) of a multi-geometry, so that several small
+//     components lie in the pockets of another component on either side of its boundary.
+static int sgnl(long v) { return v > 0 ? 1 : v < 0 ? -1 : 0; }
+static long crossI(const std::pair<long, long>& a, const std::pair<long, long>& b, const std::pair<long, long>& c) {
+    return (b.first - a.first) * (c.second - a.second) - (b.second - a.second) * (c.first - a.first);
+}
+static bool onSegI(const std::pair<long, long>& a, const std::pair<long, long>& b, const std::pair<long, long>& p) {
+    return std::min(a.first, b.first) <= p.first && p.first <= std::max(a.first, b.first) && std::min(a.second, b.second) <= p.second && p.second <= std::max(a.second, b.second);
+}
+static bool segsMeetI(const std::pair<long, long>& a, const std::pair<long, long>& b, const std::pair<long, long>& c, const std::pair<long, long>& d) {
+    int o1 = sgnl(crossI(a, b, c)), o2 = sgnl(crossI(a, b, d)), o3 = sgnl(crossI(c, d, a)), o4 = sgnl(crossI(c, d, b));
+    if (o1 != o2 && o3 != o4) return true;
+    if (o1 == 0 && onSegI(a, b, c)) return true;
+    if (o2 == 0 && onSegI(a, b, d)) return true;
+    if (o3 == 0 && onSegI(c, d, a)) return true;
+    if (o4 == 0 && onSegI(c, d, b)) return true;
+    return false;
+}
+// closed CCW ring with n distinct vertices (n + 1 coordinates) in [-R, R]^2
+static bool twoOptRing(Rng& r, int n, long R, ISeq& out) {
+    std::set<std::pair<long, long>> seen; ISeq p;
+    for (int tries = 0; tries < 20 * n && (int) p.size() < n; tries++) {
+        std::pair<long, long> q{r.range((int) -R, (int) R), r.range((int) -R, (int) R)};
+        if (seen.insert(q).second) p.push_back(q);
+    }
+    if ((int) p.size() < n || n < 3) return false;
+    bool clean = false;
+    for (int sweep = 0; sweep < 400 && !clean; sweep++) {
+        clean = true;
+        for (int i = 0; i < n; i++) for (int j = i + 2; j < n; j++) {
+            if (i == 0 && j == n - 1) continue;
+            if (segsMeetI(p[i], p[i + 1], p[j], p[(j + 1) % n])) { std::reverse(p.begin() + i + 1, p.begin() + j + 1); clean = false; }
+        }
+    }
+    if (!clean) return false;
+    // adjacent segments must not fold back onto each other
+    for (int i = 0; i < n; i++) { auto& a = p[i]; auto& b = p[(i + 1) % n]; auto& c = p[(i + 2) % n]; if (crossI(a, b, c) == 0 && onSegI(a, b, c)) return false; if (crossI(a, b, c) == 0 && onSegI(b, c, a)) return false; }
+    long area2 = 0; for (int i = 0; i < n; i++) area2 += p[i].first * p[(i + 1) % n].second - p[(i + 1) % n].first * p[i].second;
+    if (area2 == 0) return false;
+    if (area2 < 0) std::reverse(p.begin(), p.end());
+    out = p; out.push_back(out.front());
+    return true;
+}
+// number of distinct vertices of a "large" ring: around the multiples of 16 (the node capacity of the vertex index) or uniform
+static int bigRingSize(Rng& r, Out& out, int hi) {
+    int k = (int) r.below(100);
+    if (k < 30) { int m = r.range(1, std::max(1, hi / 16)); out.count("ringsize_16k_plus_1"); return 16 * m; }            // 16m + 1 coordinates
+    if (k < 50) { int m = r.range(1, std::max(1, hi / 16)); static const int d[] = {-2, -1, 1, 2}; out.count("ringsize_near_16k"); return std::max(3, 16 * m + d[r.below(4)]); }
+    out.count("ringsize_uniform"); return r.range(5, hi);
+}
+static void bboxI(const ISeq& s, long& x0, long& x1, long& y0, long& y1) {
+    x0 = y0 = LONG_MAX; x1 = y1 = LONG_MIN; for (auto& p : s) { x0 = std::min(x0, p.first); x1 = std::max(x1, p.first); y0 = std::min(y0, p.second); y1 = std::max(y1, p.second); }
+}
+// large shell (star / monotone / 2-opt) + tiny rings scattered over its bounding box
+static bool genArchipelago(Rng& r, Out& out, Built& b, bool polysOnly, bool bigSizes) {
+    for (int attempt = 0; attempt < 30; attempt++) {
+        b = Built(); Xf t = pickXf(r, out);
+        long R = r.chance(50) ? 60 : 150; ISeq shell; int kind = (int) r.below(100);
+        int n = bigSizes ? bigRingSize(r, out, 50) : (r.chance(30) ? bigRingSize(r, out, 48) : r.range(5, 30));
+        if (kind < 50) { if (!twoOptRing(r, n, R, shell)) { out.count("gen_rejected"); continue; } out.count("shell_2opt"); }
+        else if (kind < 85) { if (!starRing(r, n, R, shell)) { out.count("gen_rejected"); continue; } out.count("shell_star"); }
+        else { monotoneRing(r, std::max(4, n), R, shell); out.count("shell_monotone"); }
+        Poly big; big.rings.push_back(realise(t, shell));
+        Shape cur; cur.polys.push_back(big);
+        if (!contactFree(cur)) { out.count("gen_rejected"); continue; }
+        long x0, x1, y0, y1; bboxI(shell, x0, x1, y0, y1);
+        int m = r.chance(12) ? 0 : r.range(2, 14);
+        std::vector<std::pair<long, long>> centres; std::vector<Seq> outside; std::vector<bool> outsideIsLine;
+        for (int i = 0; i < m; i++) {
+            long rr = r.range(2, 4); long cx = r.range((int) x0 - 3, (int) x1 + 3), cy = r.range((int) y0 - 3, (int) y1 + 3);
+            bool far = true; for (auto& c : centres) if (std::labs(c.first - cx) < 10 && std::labs(c.second - cy) < 10) far = false;
+            if (!far) continue;
+            ISeq tiny; if (!starRing(r, r.range(3, 5), rr, tiny)) continue;
+            translate(tiny, cx, cy);
+            int in = 0; for (size_t q = 0; q + 1 < tiny.size(); q++) if (pointInRingI(shell, tiny[q].first, tiny[q].second)) in++;
+            bool allIn = in == (int) tiny.size() - 1, allOut = in == 0;
+            if (!allIn && !allOut) continue;
+            Shape trial = cur;
+            if (allIn) { std::reverse(tiny.begin(), tiny.end()); trial.polys[0].rings.push_back(realise(t, tiny)); }
+            else { bool asLine = !polysOnly && r.chance(35); Seq q = realise(t, tiny); if (asLine) { q.pop_back(); trial.lines.push_back(q); } else { Poly sp; sp.rings.push_back(q); trial.polys.push_back(sp); } }
+            if (!contactFree(trial)) continue;
+            cur = trial; centres.push_back({cx, cy});
+        }
+        // element order: the large polygon at a random position among the small elements
+        std::vector<std::string> parts; std::vector<int> order; int ne = (int) cur.polys.size() + (int) cur.lines.size();
+        for (int i = 0; i < ne; i++) order.push_back(i);
+        for (int i = ne - 1; i > 0; i--) std::swap(order[i], order[r.below(i + 1)]);
+        Shape fin; bool anyLine = false;
+        for (int i : order) { if (i < (int) cur.polys.size()) { fin.polys.push_back(cur.polys[i]); parts.push_back(polyTok(cur.polys[i])); } else { auto& l = cur.lines[i - cur.polys.size()]; fin.lines.push_back(l); parts.push_back(lineTok(l)); anyLine = true; } }
+        b.shape = fin; b.hasPoly = true;
+        out.count("arch_holes", (long) cur.polys[0].rings.size() - 1); out.count("arch_outside_elements", ne - 1);
+        out.count("arch_shell_coords_" + std::string(shell.size() % 16 == 1 ? "16k+1" : "other"));
+        if (ne == 1) b.tok = (r.chance(75) ? parts[0] : wrapMulti("MY", parts));
+        else if (anyLine) b.tok = wrapMulti("GC", parts);
+        else b.tok = (polysOnly || r.chance(75)) ? wrapMulti("MY", parts) : wrapMulti("GC", parts);
+        out.count(std::string("geom_") + b.tok.substr(0, b.tok.find(' ')));
+        out.count("mode_archipelago");
+        return true;
+    }
+    return false;
+}
+static double archTol(Rng& r, Out& out, const Shape& sh) {
+    if (r.chance(65)) { out.count("tol_flattening"); return extent(sh) * (0.02 + 0.5 * r.unit() * r.unit()); }
+    return pickTol(r, out, sh, false);
+}
+
+
+// ------------------------------------------------------------------ direct streams against two small decision cores used by the simplifiers
+//   jump     ComponentJumpChecker::hasJump (both overloads) on hand-built TaggedLineStrings
+//   vsindex  index::VertexSequencePackedRtree: build, remove, query, getBounds (the vertex index of RingHull and TPVWSimplifier::Edge)
+static long long dkey(double d) { uint64_t u = bits(d); return (u >> 63) ? -(long long) (u & 0x7fffffffffffffffULL) : (long long) u; }
+
+// evaluate a `J ...` case line on the implementation
+static std::string runJump(const std::vector<std::string>& tk) {
+    using namespace geos::geom; using geos::simplify::TaggedLineString; using geos::simplify::ComponentJumpChecker;
+    size_t p = 1; std::string var = tk[p++]; size_t self = std::stoul(tk[p++]);
+    auto rd = [&]() { return frombits(std::stoull(tk[p++], nullptr, 16)); };
+    auto rdSeg = [&]() { double a = rd(), b = rd(), c = rd(), d = rd(); return LineSegment(Coordinate(a, b), Coordinate(c, d)); };
+    size_t start = 0, end = 0; LineSegment s1, s2, seg;
+    if (var == "s") { start = std::stoul(tk[p++]); end = std::stoul(tk[p++]); seg = rdSeg(); } else { s1 = rdSeg(); s2 = rdSeg(); seg = rdSeg(); }
+    size_t nc = std::stoul(tk[p++]);
+    auto gf = GF(); std::vector<std::unique_ptr<LineString>> ls; std::vector<std::unique_ptr<TaggedLineString>> tl; std::vector<TaggedLineString*> ptrs;
+    for (size_t c = 0; c < nc; c++) { p++; size_t k = std::stoul(tk[p++]); auto cs = std::make_unique<CoordinateSequence>(); for (size_t i = 0; i < k; i++) { double x = rd(), y = rd(); cs->add(Coordinate(x, y)); }
+        ls.push_back(gf->createLineString(std::move(cs))); tl.push_back(std::make_unique<TaggedLineString>(ls.back().get(), 2, false)); ptrs.push_back(tl.back().get()); }
+    ComponentJumpChecker jc(ptrs);
+    bool res = var == "s" ? jc.hasJump(ptrs[self], start, end, seg) : jc.hasJump(ptrs[self], &s1, &s2, seg);
+    return res ? "1" : "0";
+}
+
+static void genJumpCase(Rng& r, Out& out) {
+    Xf t = pickXf(r, out); long R = r.chance(60) ? 6 : 30;
+    int n = r.range(3, 10); ISeq line;
+    for (int i = 0; i < n; i++) line.push_back({r.range((int) -R, (int) R), r.range((int) -R, (int) R)});
+    if (r.chance(25)) line.back() = line.front();
+    int start = r.range(0, n - 2), end = r.range(start + 1, n - 1);
+    long x0, x1, y0, y1; ISeq sect(line.begin() + start, line.begin() + end + 1); bboxI(sect, x0, x1, y0, y1);
+    int nc = r.range(1, 6); std::vector<ISeq> comps;
+    for (int c = 0; c < nc; c++) {
+        ISeq q; int k = r.range(2, 4);
+        for (int i = 0; i < k; i++) q.push_back({r.range((int) -R, (int) R), r.range((int) -R, (int) R)});
+        int w = (int) r.below(100); auto& cp = q[1];                       // the component point of an unsimplified line is its vertex 1
+        if (w < 55) cp = {r.range((int) x0, (int) x1), r.range((int) y0, (int) y1)};                   // inside the section's box
+        else if (w < 70) cp = {r.range((int) x0 - 2, (int) x1), line[r.range(start, end)].second};     // ray through a section vertex
+        else if (w < 80) cp = line[r.range(start, end)];                                              // on a section vertex
+        else if (w < 88) cp = {(line[start].first + line[end].first) / 2, (line[start].second + line[end].second) / 2};   // on / near the flattening segment
+        comps.push_back(q);
+    }
+    int self = r.range(0, nc);                                           // position of the simplified line in the component list
+    std::vector<ISeq> all; for (int c = 0; c < nc; c++) { if (c == self) all.push_back(line); all.push_back(comps[c]); } if (self == nc) all.push_back(line);
+    std::vector<Seq> real; for (auto& q : all) real.push_back(realise(t, q));
+    const Seq& L = real[self];
+    auto segTok = [&](const V& a, const V& b) { return hex(a.x) + " " + hex(a.y) + " " + hex(b.x) + " " + hex(b.y); };
+    std::string compsTok = std::to_string(all.size()); for (auto& sq : real) compsTok += " " + seqTok(sq);
+    std::string c;
+    if (r.chance(70)) {
+        V a = L[start], bb = L[end]; if (r.chance(12)) { bb = apply(t, r.range((int) -R, (int) R), r.range((int) -R, (int) R)); out.count("jump_seg_arbitrary"); }
+        c = "J s " + std::to_string(self) + " " + std::to_string(start) + " " + std::to_string(end) + " " + segTok(a, bb) + " " + compsTok;
+        out.count("jump_section");
+    } else {
+        // ring end point variant: the first and the last result segment of a ring and the segment replacing them
+        V a = L[0], b1 = L[1], c0 = L[n - 2];
+        c = "J e " + std::to_string(self) + " " + segTok(a, b1) + " " + segTok(c0, a) + " " + segTok(c0, b1) + " " + compsTok;
+        out.count("jump_ring_endpoint");
+    }
+    std::string e = runJump(splitToks(c));
+    out.count(e == "1" ? "jump_true" : "jump_false"); out.count("jump_components_" + std::to_string(nc));
+    out.emit(c, e);
+}
+
+// evaluate a `V n pts nops ops` case line on the implementation
+static std::string runVsIndex(const std::vector<std::string>& tk) {
+    using namespace geos::geom; using geos::index::VertexSequencePackedRtree;
+    size_t p = 1; size_t n = std::stoul(tk[p++]);
+    auto rd = [&]() { return frombits(std::stoull(tk[p++], nullptr, 16)); };
+    CoordinateSequence cs; for (size_t i = 0; i < n; i++) { double x = rd(), y = rd(); cs.add(Coordinate(x, y)); }
+    VertexSequencePackedRtree tree(cs); std::string e;
+    size_t nops = std::stoul(tk[p++]);
+    for (size_t o = 0; o < nops; o++) {
+        std::string op = tk[p++];
+        if (op == "r") { tree.remove(std::stoul(tk[p++])); }
+        else { double ax = rd(), bx = rd(), ay = rd(), by = rd(); Envelope env(ax, bx, ay, by); std::vector<std::size_t> res; tree.query(env, res); e += "q"; for (auto i : res) e += " " + std::to_string(i); e += ";"; }
+    }
+    auto bnds = tree.getBounds(); e += "b";
+    for (auto& b : bnds) { if (b.isNull()) e += " -"; else e += " " + std::to_string(dkey(b.getMinX())) + "," + std::to_string(dkey(b.getMaxX())) + "," + std::to_string(dkey(b.getMinY())) + "," + std::to_string(dkey(b.getMaxY())); }
+    return e;
+}
+
+static void genVsIndexCase(Rng& r, Out& out) {
+    int n; int k = (int) r.below(100);
+    if (k < 25) n = 16 * r.range(1, 6) + 1;
+    else if (k < 45) { static const int d[] = {-1, 0, 2}; n = 16 * r.range(1, 6) + d[r.below(3)]; }
+    else if (k < 60) { static const int d[] = {-1, 0, 1, 2, 16, 17}; n = 256 + d[r.below(6)]; }
+    else if (k < 65) n = r.range(500, 560);
+    else n = r.range(1, 120);
+    out.count(n <= 16 ? "vs_levels_1" : n <= 256 ? "vs_levels_2" : "vs_levels_3"); if (n % 16 == 1 && n > 16) out.count("vs_n_16k_plus_1");
+    Xf t = pickXf(r, out); std::vector<V> pts; long x = 0, y = 0; bool walk = r.chance(70); long R = r.chance(50) ? 20 : 200;
+    std::string c = "V " + std::to_string(n);
+    for (int i = 0; i < n; i++) { if (walk) { x += r.range(-3, 3); y += r.range(-3, 3); } else { x = r.range((int) -R, (int) R); y = r.range((int) -R, (int) R); }
+        V v = apply(t, x, y); if (v.x == 0) v.x = 0.0; if (v.y == 0) v.y = 0.0; pts.push_back(v); c += " " + hex(v.x) + " " + hex(v.y); }
+    std::vector<bool> gone(n, false);
+    int phases = r.range(1, 4), nops = 0; std::string ops;
+    auto doRemove = [&](int i) { if (i < 0 || i >= n || gone[i]) return; gone[i] = true; ops += " r " + std::to_string(i); nops++; };
+    auto doQuery = [&]() {
+        double ax, ay, bx, by; int w = (int) r.below(100);
+        if (w < 15) { ax = -1e300; bx = 1e300; ay = -1e300; by = 1e300; }
+        else { const V& p = pts[r.below(n)]; const V& q = pts[r.below(n)]; ax = std::min(p.x, q.x); bx = std::max(p.x, q.x); ay = std::min(p.y, q.y); by = std::max(p.y, q.y);
+               if (w < 35) { bx = ax; by = ay; } }
+        ops += " q " + hex(ax) + " " + hex(bx) + " " + hex(ay) + " " + hex(by); nops++;
+    };
+    for (int ph = 0; ph < phases; ph++) {
+        int w = (int) r.below(100);
+        if (w < 20) { doRemove(n - 1); out.count("vs_remove_last"); }                                  // what RingHull does first (duplicate closing vertex)
+        else if (w < 45) { int leaf = (int) r.below((n + 15) / 16); for (int i = 16 * leaf; i < 16 * leaf + 16; i++) if (!r.chance(4)) doRemove(i); out.count("vs_remove_leaf_block"); }
+        else if (w < 55) { int a = (int) r.below(n), len = r.range(1, 40); for (int i = a; i < a + len; i++) doRemove(i); out.count("vs_remove_run"); }
+        else if (w < 62) { int blk = (int) r.below((n + 255) / 256); for (int i = 256 * blk; i < 256 * blk + 256; i++) if (!r.chance(1)) doRemove(i); out.count("vs_remove_256_block"); }
+        else if (w < 67) { for (int i = 0; i < n; i++) doRemove(i); out.count("vs_remove_all"); }
+        else { int m = r.range(1, std::max(1, n / 2)); for (int i = 0; i < m; i++) doRemove((int) r.below(n)); out.count("vs_remove_random"); }
+        int nq = r.range(1, 4); for (int i = 0; i < nq; i++) doQuery();
+    }
+    c += " " + std::to_string(nops) + ops;
+    out.emit(c, runVsIndex(splitToks(c)));
 }
 
 // ------------------------------------------------------------------ main
@@ -478,6 +729,8 @@ int main(int argc, char** argv) {
                 for (; p < tk.size() && tk[p] != "|"; p++) { if (!in.empty()) in += " "; in += tk[p]; }
                 std::string e = runDP(h, in, tol, nullptr);
                 std::cout << "D " << tk[1] << " 0 " << in << (p < tk.size() ? " | " + e : "") << "\t" << e << "\n";
+            } else if (tk[0] == "J") { std::cout << line << "\t" << runJump(tk) << "\n";
+            } else if (tk[0] == "V") { std::cout << line << "\t" << runVsIndex(tk) << "\n";
             } else { std::string c; std::string e = runContract(h, tk, &c); std::cout << c << "\t" << e << "\n"; }
         }
         GEOS_finish_r(h); return 0;
@@ -492,12 +745,14 @@ int main(int argc, char** argv) {
             if (b.hasPoly) { c += " | " + e; if (e != "ERR") out.count(roughEqualsResult(b.tok, tol, e) ? "poly_result_is_rough_dp" : "poly_result_repaired_by_buffer0"); }
             out.emit(c, e);
         } else if (stream == "tps") {
-            Built b; if (!genValid(r, out, (int) r.below(3), b, false)) { out.count("gen_failed"); continue; }
-            double tol = pickTol(r, out, b.shape, false);
+            Built b; bool arch = r.chance(40);
+            if (!(arch ? genArchipelago(r, out, b, false, false) : genValid(r, out, (int) r.below(3), b, false))) { out.count("gen_failed"); continue; }
+            double tol = arch ? archTol(r, out, b.shape) : pickTol(r, out, b.shape, false);
             auto tk = splitToks("T " + hex(tol) + " 0 " + b.tok); std::string c; std::string e = runContract(h, tk, &c);
             out.emit(c, e);
         } else if (stream == "hull") {
-            Built b; if (!genValid(r, out, 1, b, true)) { out.count("gen_failed"); continue; }
+            Built b; bool arch = r.chance(45);
+            if (!(arch ? genArchipelago(r, out, b, true, true) : genValid(r, out, 1, b, true))) { out.count("gen_failed"); continue; }
             int outer = r.chance(50) ? 1 : 0; char mode = r.chance(60) ? 'v' : 'a';
             double param; switch (r.below(6)) { case 0: param = 0.0; break; case 1: param = 1.0; break; case 2: param = 0.5; break; default: param = r.unit(); }
             if (r.chance(5)) param = -param;
@@ -510,6 +765,8 @@ int main(int argc, char** argv) {
             double tol = pickTol(r, out, sh, false); int pb = r.chance(50) ? 1 : 0; out.count(pb ? "cov_preserve_boundary" : "cov_free_boundary");
             auto tk = splitToks(std::string("C ") + (pb ? "1 " : "0 ") + hex(tol) + " 0 " + tok); std::string c; std::string e = runContract(h, tk, &c);
             out.emit(c, e);
+        } else if (stream == "jump") { genJumpCase(r, out);
+        } else if (stream == "vsindex") { genVsIndexCase(r, out);
         } else { fprintf(stderr, "unknown stream\n"); return 2; }
     }
     GEOS_finish_r(h);
